@@ -370,6 +370,10 @@ func (s *Server) referrerDelete(repo store.Repo, subject digest.Digest, desc typ
 	}
 	// remove descriptor from response
 	refResp.RmDesc(desc)
+	// without any remaining referrers, drop the response instead of tracking an empty list that keeps the repo from being empty
+	if len(refResp.Manifests) == 0 {
+		return repo.IndexRemove(dOld)
+	}
 	// push response back to blob store with a new digest
 	refRespRaw, err = json.Marshal(refResp)
 	if err != nil {
